@@ -294,11 +294,18 @@ impl PolicyClient for GatedClient {
                 spawn_call(&self.shared, &slot, "cancel", self.comp, self.me, usize::MAX, false, h.cancel());
             }
         }
-        // a real client suspends while the request is on its way
+        // a real client suspends while the request is on its way; the request counts as sent from the
+        // moment of the call (with an HTTP client a request whose future is dropped while it waits for the
+        // answer has usually reached the destination already)
+        let idx = {
+            let mut o = self.shared.outputs.lock().unwrap();
+            o.push(OutputRec { t, comp: self.comp, party: self.me, url: to.to_string(), result, delivery_failed: failed, t_done: t });
+            o.len() - 1
+        };
         tokio::task::yield_now().await;
         tokio::task::yield_now().await;
         let t_done = self.shared.tick();
-        self.shared.outputs.lock().unwrap().push(OutputRec { t, comp: self.comp, party: self.me, url: to.to_string(), result, delivery_failed: failed, t_done });
+        self.shared.outputs.lock().unwrap()[idx].t_done = t_done;
         if take(true) {
             let h = self.shared.handles.lock().unwrap().get(&(self.comp, self.me)).cloned();
             if let Some(h) = h {
